@@ -216,6 +216,14 @@ def gen_job(rep, known):
     import gentrace, gendriver, glob
     mc_job(rep, 'MC_Cache', 'MC_Cache_ideal.cfg', workers=2)
     mc_job(rep, 'MC_Cache', 'MC_Cache_keep.cfg', workers=2, expect_violation='CacheCurrent')
+    if rep.tier == 'thorough':
+        # unbounded: CacheCurrent as an inductive invariant (Apalache); the deviation must break the induction step.
+        # An unavailable tool is a note, never a verdict; a counterexample on the faithful protocol is a specification error.
+        import apalache
+        a = apalache.run(); b = apalache.run('{"InvalKeepsLive"}')
+        if 'counterexample' in (a['base'], a['step']): raise tlc.TlcError('Apalache: CacheCurrent is not inductive for Cache.tla: %s' % a)
+        rep.notes.append('Apalache inductive check of CacheCurrent: %s; with InvalKeepsLive: %s' % (a, b))
+        rep.mc_runs.append({'module': 'Cache.tla (Apalache, inductive invariant)', 'result': a, 'with_deviation': b})
     n = 1500 if rep.tier == 'thorough' else 160
     seeds = [rep.seed * 100000 + i for i in range(n)]
     with get_context("fork").Pool(16) as pool:
